@@ -3,6 +3,6 @@ from .. import loops as LP
 
 
 def run(ctx, res, reach):
-    LP.run(ctx, res, reach)
+    LP.run(ctx, res, reach, defect_for=("value-depth",))
     res.note("RECURSION sees only recursion through the crate's own functions; recursion of Drop / PartialEq / Clone over nested "
              "values goes through std generics and is not represented in MIR call facts (deep value nesting is a known limitation)")
